@@ -24,6 +24,7 @@ type lockStep struct {
 	A           string            `json:"a"`
 	U           string            `json:"u"`
 	P           string            `json:"p"`
+	Kind        string            `json:"kind"` // hook: how the hook run comes about (checkout | merge)
 	Ps          []string          `json:"ps"` // lockmany / unlockmany: the paths in the order given
 	OK          bool              `json:"ok"`
 	Force       bool              `json:"force"`
@@ -36,6 +37,34 @@ type lockStep struct {
 	ReadonlyIs  []string          `json:"readonlyIs"`
 	ServerAfter map[string]string `json:"serverAfter"`
 	Page        int               `json:"page"` // locks per page of the server's list / verify answers (0: all)
+}
+
+// mergeUnrelated builds, without touching the work tree, a commit on top of HEAD that adds a file no
+// lock pattern matches, and merges it with --no-ff.
+func mergeUnrelated(env *gitenv.Env, dir string, n int) gitenv.Result {
+	name := fmt.Sprintf("notes-%d.txt", n)
+	idx := filepath.Join(dir, ".git", fmt.Sprintf("side-index-%d", n))
+	defer os.Remove(idx)
+	blob := env.RunIn(dir, nil, []byte(fmt.Sprintf("notes %d\n", n)), 30*time.Second, "git", "hash-object", "-w", "--stdin")
+	if !blob.OK() {
+		return blob
+	}
+	xe := []string{"GIT_INDEX_FILE=" + idx}
+	if r := env.RunIn(dir, xe, nil, 30*time.Second, "git", "read-tree", "HEAD"); !r.OK() {
+		return r
+	}
+	if r := env.RunIn(dir, xe, nil, 30*time.Second, "git", "update-index", "--add", "--cacheinfo", "100644,"+strings.TrimSpace(blob.Stdout)+","+name); !r.OK() {
+		return r
+	}
+	tree := env.RunIn(dir, xe, nil, 30*time.Second, "git", "write-tree")
+	if !tree.OK() {
+		return tree
+	}
+	commit := env.RunIn(dir, nil, nil, 30*time.Second, "git", "commit-tree", strings.TrimSpace(tree.Stdout), "-p", "HEAD", "-m", "side change "+name)
+	if !commit.OK() {
+		return commit
+	}
+	return env.RunIn(dir, nil, nil, 60*time.Second, "git", "merge", "-q", "--no-ff", "-m", "merge "+name, strings.TrimSpace(commit.Stdout))
 }
 
 const zeroSha = "0000000000000000000000000000000000000000"
@@ -196,7 +225,15 @@ func replayLocking(c *core.Ctx, lfsBin string, b *behaviour, idx int) (*core.Vio
 		case "verify":
 			r = run(d, "git-lfs", "locks", "--verify")
 		case "hook":
-			r = hook(s.U)
+			if s.Kind == "merge" {
+				// a real merge of a commit that adds an unrelated file: Git runs the installed post-merge hook
+				r = mergeUnrelated(env, d, i)
+				if r.Code != 0 {
+					return nil, fmt.Errorf("merge of an unrelated change failed: %s", r.All())
+				}
+			} else {
+				r = hook(s.U)
+			}
 		case "edit":
 			f, err := os.OpenFile(filepath.Join(d, file), os.O_APPEND|os.O_WRONLY, 0)
 			if err != nil {
